@@ -8,6 +8,8 @@ import (
 	stded "crypto/ed25519"
 	"crypto/sha512"
 	"fmt"
+	"io"
+	"testing/iotest"
 
 	"github.com/wollac/iota-crypto-demo/pkg/ed25519"
 
@@ -157,6 +159,42 @@ func judge(class string, key []byte, o *fw.Obs) {
 	if gerr != nil || !bytes.Equal(gpriv, stdPriv) || !bytes.Equal(gpub, stdPriv[32:]) {
 		o.Fail("genkey", "GenerateKey(reader) = %x / %x err=%v, expected key of the first 32 bytes", []byte(gpub), []byte(gpriv), gerr)
 		return
+	}
+	// readers that deliver the seed in small pieces
+	for _, mk := range []func(io.Reader) io.Reader{iotest.OneByteReader, iotest.HalfReader, iotest.DataErrReader} {
+		rd := mk(bytes.NewReader(append(append([]byte(nil), seed...), 1, 2, 3)))
+		if !o.Try("GenerateKey(chunked reader)", func() { gpub, gpriv, gerr = ed25519.GenerateKey(rd) }) {
+			return
+		}
+		if gerr != nil || !bytes.Equal(gpriv, stdPriv) || !bytes.Equal(gpub, stdPriv[32:]) {
+			o.Fail("genkey", "GenerateKey with a reader that delivers the bytes in pieces = %x / %x err=%v, expected the key of the first 32 bytes", []byte(gpub), []byte(gpriv), gerr)
+			return
+		}
+	}
+	// the caller reuses its buffers: sign from a private key and a message held in buffers that are then
+	// overwritten; the results handed out before must not change (fw.Keeper), and a second signature over
+	// new contents of the same buffers must be the one of the new contents
+	{
+		keyBuf := append([]byte(nil), priv...)
+		msgBuf := append([]byte(nil), msg...)
+		var s1, s2 []byte
+		if !o.Try("Sign (reused buffers)", func() { s1 = ed25519.Sign(ed25519.PrivateKey(keyBuf), msgBuf) }) {
+			return
+		}
+		seed2 := append([]byte(nil), seed...)
+		seed2[0] ^= 0x55
+		std2 := stded.NewKeyFromSeed(seed2)
+		copy(keyBuf, std2)
+		for i := range msgBuf {
+			msgBuf[i] ^= 0x33
+		}
+		if !o.Try("Sign (reused buffers)", func() { s2 = ed25519.Sign(ed25519.PrivateKey(keyBuf), msgBuf) }) {
+			return
+		}
+		if !bytes.Equal(s1, stdSig) || !bytes.Equal(s2, stded.Sign(std2, msgBuf)) {
+			o.Fail("signature", "signing from buffers that are overwritten in place between the calls: first %x (expected %x), second %x (expected %x)", s1, stdSig, s2, stded.Sign(std2, msgBuf))
+			return
+		}
 	}
 	o.Count("sign ok")
 }
